@@ -109,7 +109,7 @@ def build(tier, repo):
     r3.require(2)
     r4 = chk.rule("C03-R4", "block-offset discipline in coneqp/qp", "blocks of s, z addressed consistently")
     rc.offsets_rule(r4, w, [("coneprog", "coneqp"), ("coneprog", "qp")])
-    r4.require(25)
+    r4.require(22)
     r5 = chk.rule("C03-R5", "P is read only through the 'L' symmetric product, validation and the KKT factory; qp forwards to coneqp in parameter order",
                   "only the lower triangle of P is read")
     check_P_lower_only(r5, w)
